@@ -407,6 +407,11 @@ pub fn truncate_and_round(
         let digits = &mut buffer[start..start + max_digits];
         max_digits + ltrim_char_count(digits, b'0')
     };
+    if max_digits >= digit_count {
+        // With the leading zeros, there's nothing left to truncate: the
+        // digits past `end` were never written.
+        return (digit_count, false);
+    }
 
     // We need to round-nearest, tie-even, so we need to handle
     // the truncation **here**. If the representation is above
